@@ -379,6 +379,32 @@ def _out(iv):
     return "ok %d %d %d %d" % (_native_len(iv), iv.in_seconds(), iv.in_minutes(), iv.in_hours())
 
 
+class _ForeignTz(dt.tzinfo):
+    """a DST-observing tzinfo that is neither zoneinfo nor pytz nor pendulum: delegates to a zoneinfo zone, exposes no name attribute"""
+
+    def __init__(self, zi):
+        self._zi = zi
+
+    def utcoffset(self, d):
+        return None if d is None else self._zi.utcoffset(d.replace(tzinfo=self._zi))
+
+    def dst(self, d):
+        return None if d is None else self._zi.dst(d.replace(tzinfo=self._zi))
+
+    def tzname(self, d):
+        return None if d is None else self._zi.tzname(d.replace(tzinfo=self._zi))
+
+
+_FOREIGN = {}
+
+
+def _foreign(name):
+    import zoneinfo
+    if name not in _FOREIGN:
+        _FOREIGN[name] = _ForeignTz(zoneinfo.ZoneInfo(name))
+    return _FOREIGN[name]
+
+
 def impl(op, backend):
     p = _P["p"]
     try:
@@ -387,6 +413,11 @@ def impl(op, backend):
             x = D.mk(zx, wx, fx)
             if path in ("subn", "rsubn"):
                 y = D.native(zy, wy, fy)
+                import zlib
+                if zy[0] not in "nf" and zlib.crc32(("foreign" + repr(op)).encode()) % 3 == 0 and D.wall_solutions(D.zname(zy), wy, YMAX):
+                    # the native operand carries a hand-written tzinfo (no key / zone attribute; what dateutil or user code provides):
+                    # ONE object per zone for the whole process, met at dates with different offsets
+                    y = y.replace(tzinfo=_foreign(D.zname(zy)))
                 return _out(x - y if path == "subn" else y - x)
             if zy == "n" or (same and zx == zy):
                 y = D.mk(zy, wy, fy)
